@@ -114,7 +114,13 @@ impl ProcessState {
             let tx = if !must_create {
                 db = connect(&e, &dbfile)
                     .map_err(|e| RedoError::new(format!("could not connect: {}", e)))?;
-                let tx = db.transaction().map_err(RedoError::opaque_error)?;
+                // Take the write lock up front: this transaction reads (schema
+                // version) and then writes (new run id). A deferred transaction
+                // that has to upgrade after another process committed fails at
+                // once with SQLITE_BUSY instead of honouring the busy timeout.
+                let tx = db
+                    .transaction_with_behavior(TransactionBehavior::Immediate)
+                    .map_err(RedoError::opaque_error)?;
                 let ver: Option<i32> = tx
                     .query_row("select version from Schema", [], |row| row.get(0))
                     .optional()
@@ -132,7 +138,9 @@ impl ProcessState {
                 helpers::unlink(&dbfile).map_err(RedoError::opaque_error)?;
                 db = connect(&e, &dbfile)
                     .map_err(|e| RedoError::new(format!("could not connect: {}", e)))?;
-                let tx = db.transaction().map_err(RedoError::opaque_error)?;
+                let tx = db
+                    .transaction_with_behavior(TransactionBehavior::Immediate)
+                    .map_err(RedoError::opaque_error)?;
                 tx.execute(
                     "create table Schema \
                         (version int)",
